@@ -2,8 +2,9 @@ from pyvc.runner import Property, StandIn
 import contracts.all  # noqa
 import contracts.context as CX
 import contracts.standins_context as B
+import contracts.storage as ST
 
-PROVED = [CX.target_should_be_saved, CX.check_cache]
+PROVED = [CX.target_should_be_saved, CX.check_cache, CX.find_options, ST.we_take, ST.support_superruns, ST.frontend_find]
 
 PROPERTY = Property(
     "C11", "proof",
@@ -19,5 +20,8 @@ PROPERTY = Property(
     explanation="decision logic of compute/save planning: _target_should_be_saved is exactly the save policy; in check_cache a saver is "
                 "created only under all of (no time range / selection / projection / fuzzy / incomplete / temp / loaded / superrun-off) and "
                 "the policy; a plugin is scheduled only if its data could not be loaded and may be created; a found loader excludes "
-                "computation; the function's own DataNotAvailable is raised exactly in the forbidden cases",
+                "computation; the function's own DataNotAvailable is raised exactly in the forbidden cases; 'fuzzy' means a non-empty "
+                "fuzzy_for / fuzzy_for_options find option (contract of _find_options); a storage frontend's find() returns only data "
+                "types it takes (not excluded, named by a non-empty take_only), superruns only if it provides them, and never a "
+                "write location when readonly",
 )
